@@ -42,7 +42,7 @@ func init() {
 			"the wall clock only moves forward inside a bubble; TLS is not simulated",
 			"the attacker tries MD5/hex/base64 of the counter values within +-64 of identifiers disclosed to it",
 		},
-		RequiredProbes: []string{"c11.allowed", "c11.denied", "c11.after-edit"},
+		RequiredProbes: []string{"c11.allowed", "c11.denied", "c11.after-edit", "c11.held-session-after-edit"},
 	})
 }
 
@@ -103,7 +103,7 @@ func buildC11(tier string) sim.Scenario {
 			"admin": {pw: "adminpw", admin: true, exists: true},
 			"alice": {pw: "alicepw", pull: "/live/*", push: "/push/alice", exists: true},
 			"bob":   {pw: "bobpw", pull: "/cam/+;/live/a", push: "", exists: true},
-			"carol": {pw: "carolpw", pull: "", push: "/push/*", exists: true},
+			"carol": {pw: "carolpw", pull: "/live/a/*;/ca/*", push: "/push/*", exists: true},
 		}
 		var init0 []*auth.User
 		for _, n := range []string{"admin", "alice", "bob", "carol"} {
@@ -111,7 +111,7 @@ func buildC11(tier string) sim.Scenario {
 			init0 = append(init0, &auth.User{Name: n, Password: u.pw, Admin: u.admin, PullAccess: u.pull, PushAccess: u.push})
 		}
 		sw = newSvcWorld(w, true, tp.Bool(), init0, nil)
-		paths := []string{"/live/a", "/live/b", "/cam/1", "/other/x"}
+		paths := []string{"/live/a", "/live/b", "/cam/1", "/other/x", "/live/ab", "/cam/10"}
 		streams := map[string]*media.Stream{}
 		for _, p := range paths {
 			s := media.NewStream(p, sdpH264AAC)
@@ -194,6 +194,19 @@ func buildC11(tier string) sim.Scenario {
 		}
 		adminTok := tokens["admin"][0]
 
+		// ---- a ws-rtsp session opened before the edits and used after them: its decisions must follow the rights as last saved ----
+		var heldWS *websocket.Conn
+		heldUser := ""
+		if tp.Bool() {
+			heldUser = []string{"alice", "bob"}[tp.Choose(2)]
+			ws, _, err := sw.wsDial("held", "/streams/live/a?token="+tokens[heldUser][0], "rtsp", nil)
+			if err != nil {
+				w.Fail("C11/false-refusal", "ws-rtsp upgrade on /live/a refused for %s, whose pull rights cover it (%v)", heldUser, err)
+				return
+			}
+			heldWS = ws
+		}
+
 		// ---- administrator edits ----
 		nEdits := tp.Choose(3)
 		edited := false
@@ -202,7 +215,7 @@ func buildC11(tier string) sim.Scenario {
 			u := users[name]
 			switch tp.Choose(4) {
 			case 0: // narrow / change rights
-				np := []string{"/live/a", "/cam/1", "", "/other/+", "/LIVE/B"}[tp.Choose(5)]
+				np := []string{"/live/a", "/cam/1", "", "/other/+", "/LIVE/B", "/cam/1/*", "/live/a/*;/liv/*"}[tp.Choose(7)]
 				npush := []string{"", "/push/" + name, "/live/*"}[tp.Choose(3)]
 				body, _ := json.Marshal(map[string]interface{}{"name": name, "password": "ignored", "pull": np, "push": npush})
 				res := sw.httpDo("edit", "POST", "/api/v1/users?token="+adminTok, map[string]string{"Content-Type": "application/json"}, string(body))
@@ -284,6 +297,54 @@ func buildC11(tier string) sim.Scenario {
 				return false, res.Status
 			}
 			return true, 200
+		}
+
+		// ---- the session held across the edits ----
+		if heldWS != nil {
+			heldReq := func(cseq int, req string) int {
+				heldWS.WriteMessage(websocket.BinaryMessage, []byte(req))
+				heldWS.SetReadDeadline(time.Now().Add(5 * time.Second))
+				for {
+					_, msg, err := heldWS.ReadMessage()
+					if err != nil {
+						return 0
+					}
+					st := 0
+					if n, _ := fmt.Sscanf(string(msg), "RTSP/1.0 %d", &st); n == 1 {
+						return st
+					}
+				}
+			}
+			if edited {
+				w.Probe("c11.held-session-after-edit")
+			}
+			if tp.Bool() { // publish through the held session
+				ppath := []string{"/push/alice", "/live/pub", "/push/" + heldUser}[tp.Choose(3)]
+				before := media.Get(ppath)
+				st := heldReq(1, fmt.Sprintf("ANNOUNCE rtsp://10.9.0.1:554%s RTSP/1.0\r\nCSeq: 1\r\nContent-Type: application/sdp\r\nContent-Length: %d\r\n\r\n%s", ppath, len(sdpH264), sdpH264))
+				if st == 200 {
+					heldReq(2, "SETUP rtsp://10.9.0.1:554"+ppath+"/streamid=0 RTSP/1.0\r\nCSeq: 2\r\nTransport: RTP/AVP/TCP;unicast;interleaved=0-1;mode=record\r\n\r\n")
+					heldReq(3, "RECORD rtsp://10.9.0.1:554"+ppath+" RTSP/1.0\r\nCSeq: 3\r\n\r\n")
+				}
+				after := media.Get(ppath)
+				verdict("ws-rtsp-publish(session opened before the edits)", heldUser, "push", ppath, after != nil && after != before, fmt.Sprintf("ANNOUNCE answered %d", st))
+			} else { // play through it
+				st := heldReq(1, "DESCRIBE rtsp://10.9.0.1:554/live/a RTSP/1.0\r\nCSeq: 1\r\nAccept: application/sdp\r\n\r\n")
+				got := false
+				if st == 200 {
+					st = heldReq(2, "SETUP rtsp://10.9.0.1:554/live/a/streamid=0 RTSP/1.0\r\nCSeq: 2\r\nTransport: RTP/AVP/TCP;unicast;interleaved=0-1\r\n\r\n")
+					if st == 200 {
+						st = heldReq(3, "PLAY rtsp://10.9.0.1:554/live/a RTSP/1.0\r\nCSeq: 3\r\n\r\n")
+						got = st == 200
+					}
+				}
+				verdict("ws-rtsp-play(session opened before the edits)", heldUser, "pull", "/live/a", got, fmt.Sprintf("last status %d", st))
+			}
+			heldWS.Close()
+			w.Sleep(time.Second)
+			if w.Failed() {
+				return
+			}
 		}
 
 		// ---- requests ----
